@@ -16,8 +16,10 @@ PARTIAL = [
     "checked on the implementation by the from-scratch oracle on every parallel run.",
     "tiered_set_linearizable: proved for the REPAIRED insert_element (toggle fixed=true, fixes/F6-tiered-set-upgrade.diff). For the code "
     "as it is the statement is refuted (asis_lost_insert_T1 / _T32, asis_insert_not_visible) and reproduced on the real set: finding F6.",
-    "the computing-table theorems are about runs without cancellation or executor panics (C05) and without dependency cycles (C06: "
-    "`check_cyclic` / SCC exit is not modelled; nested requests go to smaller keys); input sessions between rounds are outside (C04)",
+    "the computing-table model covers the cancellation the engine itself performs (the repair of an owner drops the remaining callee "
+    "checks of an unordered group; a dropped owner removes its entry and notifies without publishing) but not cancellation of user "
+    "requests or executor panics (C05), nor dependency cycles (C06: `check_cyclic` / SCC exit is not modelled; nested requests go to "
+    "smaller keys); input sessions between rounds are outside (C04)",
     "trace validation replays hook events through CT.kStep, the model's shared state restricted to one key (the hooks carry no task "
     "identity); hook_traces_accepted proves that every run of the full CT model is accepted by that replay (model traces are inside "
     "kStep traces); the converse (every kStep-accepted trace is a CT trace) is not proved, so trace validation checks the shared-state "
@@ -38,7 +40,9 @@ TRUSTED_EXTRA = [
     "modelled, not verified: scc::HashMap, tokio Notify/RwLock, parking_lot RwLock, DashSet (as atomic maps / fair locks); memory-model "
     "effects below the lock/atomic abstraction",
     "hook call sites added in the /repo working tree under --cfg qbice_verif (cl.reg, cl.vacant, cl.none, cl.done, cl.woken, cl.publish, "
-    "fp.hit, fp.miss) and the re-export of CompressedBackwardEdgeSet; events are numbered by one AtomicU64 inside the critical section",
+    "fp.hit, fp.miss) and the wrapper qbice::verif::BackwardEdgeSet around the crate-private CompressedBackwardEdgeSet (forwards to the "
+    "real ConcurrentSet impl); events are numbered by one AtomicU64 inside the critical section; cl.done is emitted between remove_sync "
+    "and notify_waiters and stands for both steps; a done without a preceding publish (a cancelled owner) is accepted",
     "the forced F6 schedule on the real set uses no hook: the gate is the BuildHasher type parameter, whose Default::default() the as-is "
     "upgrade calls while holding both locks",
     "parallel runs (2-16 worker threads) explore the interleavings the OS scheduler produces; a parallel-only failure is replayed by re-running its seed",
